@@ -289,9 +289,36 @@ u8_t *get_v_opt(int argc, char *argv[])
         {
             strlog("Note :", "Using default output file name");
             res->out = fopen(fout, "wb+");
+            if (res->out == NULL)
+            {
+                strlog("Error :", "Could not open file " + std::string(fout));
+                delete res;
+                return NULL;
+            }
         }
         getRandomBuffer(res->r_buf);
         printkey(res->key);
+    }
+    else if (res->mode == 'd' || res->mode == 'v')
+    {
+        if (res->fp == NULL)
+        {
+            strlog("Error :", "No file specified");
+            delete res;
+            return NULL;
+        }
+        if (res->key == NULL)
+        {
+            strlog("Error :", "No key specified");
+            delete res;
+            return NULL;
+        }
+        if (res->mode == 'd' && res->out == NULL)
+        {
+            strlog("Error :", "No output file specified");
+            delete res;
+            return NULL;
+        }
     }
     return res->buf;
 }
